@@ -2573,12 +2573,11 @@ def distributed_shampoo(
     errors = metrics.inverse_pth_root_errors
     errors = errors.reshape((-1, 1, 1))
     predicate = jnp.logical_or(
-        jnp.isnan(errors),
-        errors >= inverse_failure_threshold).astype(new_preconditioners.dtype)
-    # TODO(rohananil): Check for numerical instabilities.
-    new_conditional_preconditioners = (
-        predicate * global_stats.preconditioners +
-        (1.0 - predicate) * new_preconditioners)
+        jnp.isnan(errors), errors >= inverse_failure_threshold)
+    # Select rather than blend arithmetically: 0 * NaN = NaN would leak a failed
+    # (non-finite) root into the stored preconditioner.
+    new_conditional_preconditioners = jnp.where(
+        predicate, global_stats.preconditioners, new_preconditioners)
     new_global_stats = GlobalShardedParameterStats(
         new_stacked_padded_statistics, new_conditional_preconditioners,
         global_stats.exponents)
